@@ -40,14 +40,16 @@ fn arb_conn() -> BoxedStrategy<ConnPlan> {
             1 => arb_peer_acts(),
         ],
         proptest::option::weighted(0.15, (0usize..4, prop::sample::select(IoKind::ALL.to_vec()))),
+        // back-pressure: the transport stops accepting bytes for a while after some bytes
+        proptest::option::weighted(0.15, (0u32..60, prop::sample::select(vec![1u32, 3, 10, 40, 200]))),
     )
-        .prop_map(|(per_request, default, fail_write_at)| ConnPlan {
+        .prop_map(|(per_request, default, fail_write_at, write_stall)| ConnPlan {
             peer: PeerPlan {
                 per_request,
                 default,
             },
             fail_write_at,
-            write_stall: None,
+            write_stall,
             unsolicited: vec![],
         })
         .boxed()
